@@ -22,6 +22,17 @@
 (*   "tri2"    <<x1,y1,x2,y2,x3,y3>>     2D triangle                          *)
 (*   "bitmap"  <<w,h,b_1..b_wh>>         BitmapToSolid: pixel (i,j) covers     *)
 (*             [i,i+1) x [j,j+1)                                              *)
+(*   "rbox"    <<lx,ly,lz,hx,hy,hz,k>>   the points closer than k to the box   *)
+(*             (SDFToSolid with an outset, NewColliderSolidInset with a        *)
+(*             negative inset); squared distance = k^2 is the boundary         *)
+(*   "shell"   <<lx,ly,lz,hx,hy,hz,r>>   the points closer than r to the       *)
+(*             SURFACE of the box (NewColliderSolidHollow)                     *)
+(*   "boxsphere" <<lo, hi, cx,cy,cz, r>> box intersected with a ball            *)
+(*             (CheckedFuncSolid around a predicate that ignores the box)      *)
+(*   "annulus" <<ax,ay,az,L,r0,r1,y0,y1>> RevolveSolid of the 2-D rect          *)
+(*             [r0,r1] x [y0,y1] around the integer axis a of integer length L: *)
+(*             with s = p.a: y0 L < s < y1 L and r0^2 L^2 < |p|^2 L^2 - s^2 <   *)
+(*             r1^2 L^2 (no inner bound when r0 = 0)                           *)
 (*   "none"    no exact predicate                                            *)
 (* Side(p) is "in" (strict interior), "out" (strict exterior) or "on"; points *)
 (* exactly on a surface are never judged.                                    *)
@@ -43,7 +54,8 @@
 (*             and every probe with Side = "in" is contained                  *)
 (*    panic  - no call panicked                                              *)
 (* kind "sdf" (C06): [.., shape, data, qs: <<[q, tag, onsurf, sign, agree,     *)
-(*    pdist, psurf, nunit, nout, ncons, v4, v4x, v256, p4, p4x, n1, n1x]>>]   *)
+(*    pdist, psurf, nunit, nout, ncons, v4, v4x, v256, p4, p4x, n1, n1x,       *)
+(*    nonormal]>>]   (nonormal: the field has no NormalSDF)                    *)
 (*    sign   - SDF > 0 iff Contains (skipped when |SDF| < 1e-9)               *)
 (*    agree  - PointSDF and NormalSDF return the value of SDF                 *)
 (*    point  - |p - q| = |SDF(q)| and SDF(p) = 0 (1e-9)                       *)
@@ -139,7 +151,26 @@ SideBitmap(p) == LET w == D[1] h == D[2] IN
                  IF p[1] < 0 \/ p[2] < 0 \/ p[1] >= 4 * w \/ p[2] >= 4 * h THEN "out"
                  ELSE IF D[3 + (p[1] \div 4) + w * (p[2] \div 4)] = 1 THEN "in" ELSE "out"
 
+\* ---- derived solids (BoxD2 / BoxIn are defined with the distance fields below)
+BoxD2s(q) == LET ex(a) == IF a \in Dims THEN Max2(Max2(BoxLo[a] - q[a], q[a] - BoxHi[a]), 0) ELSE 0 IN
+             ex(1) * ex(1) + ex(2) * ex(2) + ex(3) * ex(3)
+BoxIns(q) == LET m(a) == Min2(q[a] - BoxLo[a], BoxHi[a] - q[a]) IN
+             IF R.dim = 2 THEN Min2(m(1), m(2)) ELSE Min2(m(1), Min2(m(2), m(3)))
+SideRBox(p) == Cmp(BoxD2s(p), D[7] * D[7])
+SideShell(p) == IF SideBox(p) = "out" THEN Cmp(BoxD2s(p), D[7] * D[7]) ELSE Cmp(BoxIns(p), D[7])
+SideBoxSphere(p) == Both(SideBox(p), Cmp(N2(Sub(p, <<D[7], D[8], D[9]>>)), D[10] * D[10]))
+SideAnnulus(p) == LET a == <<D[1], D[2], D[3]>>
+                      L == D[4]
+                      s == Dot(p, a)
+                      rad == N2(p) * L * L - s * s IN       \* (radial distance * L)^2, quarter units
+                  Both(Both(Cmp(D[7] * L, s), Cmp(s, D[8] * L)),
+                       Both(IF D[5] = 0 THEN "in" ELSE Cmp(D[5] * D[5] * L * L, rad), Cmp(rad, D[6] * D[6] * L * L)))
+
 Side(p) == CASE R.shape = "sphere" -> SideSphere(p)
+             [] R.shape = "rbox" -> SideRBox(p)
+             [] R.shape = "shell" -> SideShell(p)
+             [] R.shape = "boxsphere" -> SideBoxSphere(p)
+             [] R.shape = "annulus" -> SideAnnulus(p)
              [] R.shape = "box" -> SideBox(p)
              [] R.shape = "poly" -> SidePoly(p)
              [] R.shape = "cyl" -> SideCyl(p)
@@ -199,7 +230,7 @@ SdfExact(q) ==
                  /\ q.p4x /\ OnBox(P3(q.p4)) /\ N2(Sub(P3(q.p4), p)) = BoxIn(p) * BoxIn(p)
       [] OTHER -> TRUE
 BoxNormalOK(q) ==
-    R.shape # "box" \/
+    R.shape # "box" \/ q.nonormal \/      \* extruded profiles offer no NormalSDF
     /\ q.n1x /\ q.p4x
     /\ \E a \in Dims : /\ q.n1[a] \in {-1, 1} /\ \A b \in (1..3) \ {a} : q.n1[b] = 0
                        /\ q.p4[a] = (IF q.n1[a] = 1 THEN BoxHi[a] ELSE BoxLo[a])
